@@ -144,9 +144,10 @@ def judge(ctx, i, variant, rf, rb, res):
         try:
             path = os.path.join(d, "v.c")
             with open(path, "w", encoding="utf-8", errors="surrogateescape") as f:
-                f.write(unit)
+                # (the plain spelling of the unit: the gcc-style line markers of the 'marker' variant are themselves a pedantic error)
+                f.write(unit if variant != "marker" else build_unit(text, scope, "plain", rf, rb, with_vio=True))
             g = run(["gcc", "-std=c2x" if ("nullptr" in unit or "_BitInt" in unit or "enum e" in unit and " : " in unit) else "-std=c11",
-                     "-pedantic-errors", "-fsyntax-only", "-w", path], env=GCC_ENV, timeout=30)
+                     "-pedantic-errors", "-fsyntax-only", path], env=GCC_ENV, timeout=30)
         finally:
             shutil.rmtree(d, ignore_errors=True)
         if g.rc == 0:
